@@ -133,6 +133,28 @@ func (c *Command) UnmarshalXML(d *xml.Decoder, start xml.StartElement) error {
 				f := Form{}
 				err = d.DecodeElement(&f, &tt)
 				c.CommandElements = append(c.CommandElements, &f)
+			case "bad-action":
+				c.BadAction = &struct{}{}
+				err = d.Skip()
+			case "bad-locale":
+				c.BadLocale = &struct{}{}
+				err = d.Skip()
+			case "bad-payload":
+				c.BadPayload = &struct{}{}
+				err = d.Skip()
+			case "bad-sessionid":
+				c.BadSessionId = &struct{}{}
+				err = d.Skip()
+			case "malformed-action":
+				c.MalformedAction = &struct{}{}
+				err = d.Skip()
+			case "session-expired":
+				c.SessionExpired = &struct{}{}
+				err = d.Skip()
+			case "set":
+				rs := ResultSet{}
+				err = d.DecodeElement(&rs, &tt)
+				c.ResultSet = &rs
 			default:
 				n := Node{}
 				err = d.DecodeElement(&n, &tt)
